@@ -6,6 +6,7 @@ pairing of the two sides in multiset / keyed edits; R08d lists are compared by t
 """
 import ast
 
+from ..astx import code
 from ..astx import walk_no_nested, dotted, call_name, self_attr, func_params, parent, dominating_conditions, flatten_conditions
 from ..core import norm, Inconclusive
 from .. import pat
@@ -64,7 +65,7 @@ def r08b(ctx):
     sq = m.need_class("SequenceNode")
     eq = m.method(sq, "__eq__")
     o = func_params(eq.node)[1]
-    if f"self._children=={o}._children" in ast.unparse(eq.node).replace(" ", ""):
+    if f"self._children=={o}._children" in code(eq.node).replace(" ", ""):
         ctx.proved("R08b", eq.file, "SequenceNode.__eq__", eq.node, "container equality", "equality is equality of the containers")
     else:
         ctx.violation("R08b", eq.file, "SequenceNode.__eq__", eq.node, "container equality", "SequenceNode.__eq__ no longer compares the containers")
@@ -81,7 +82,7 @@ def r08b(ctx):
         if cname == "ListNode":
             ok_ctor = bool(sup) and sup[0].args and isinstance(sup[0].args[0], ast.Call) and call_name(sup[0].args[0]) == "tuple"
         if cname == "MultiSetNode":
-            t = ast.unparse(init.node).replace(" ", "")
+            t = code(init.node).replace(" ", "")
             ok_ctor = "ifnotisinstance(items,HashableCounter):\n" in t.replace("    ", "") and "items=HashableCounter(items)" in t
         if got == want and ok_ctor:
             ctx.proved("R08b", ct.file, f"{cname}.container_type", r, f"{cname} container", f"children are stored in a {want}")
@@ -104,13 +105,13 @@ def r08b(ctx):
                       "different orders hash differently and are not found equal inside other multisets")
     fq = m.need_class("FixedKeyDictNode")
     fh = m.method(fq, "__hash__")
-    if "hash(frozenset(self._children.values()))" in ast.unparse(fh.node).replace(" ", ""):
+    if "hash(frozenset(self._children.values()))" in code(fh.node).replace(" ", ""):
         ctx.proved("R08b", fh.file, "FixedKeyDictNode.__hash__", fh.node, "order-free hash", "hash of a frozenset of the pairs")
     else:
         ctx.violation("R08b", fh.file, "FixedKeyDictNode.__hash__", fh.node, "order-free hash", "FixedKeyDictNode.__hash__ depends on insertion order")
     fe = m.method(fq, "edits")
     o = func_params(fe.node)[1]
-    if f"frozenset(self)==frozenset({o})" in ast.unparse(fe.node).replace(" ", ""):
+    if f"frozenset(self)==frozenset({o})" in code(fe.node).replace(" ", ""):
         ctx.proved("R08b", fe.file, "FixedKeyDictNode.edits", fe.node, "order-free equality test", "zero-cost match under frozenset equality")
     else:
         ctx.violation("R08b", fe.file, "FixedKeyDictNode.edits", fe.node, "order-free equality test",
@@ -118,7 +119,7 @@ def r08b(ctx):
     kv = m.need_class("KeyValuePairNode")
     lt = m.method(kv, "__lt__")
     o = func_params(lt.node)[1]
-    t = ast.unparse(lt.node).replace(" ", "").replace("(", "").replace(")", "")
+    t = code(lt.node).replace(" ", "").replace("(", "").replace(")", "")
     if f"returnself.key<{o}.keyorself.key=={o}.keyandself.value<{o}.value" in t:
         ctx.proved("R08b", lt.file, "KeyValuePairNode.__lt__", lt.node, "pair order", "pairs sort by key, then value")
     else:
